@@ -1,8 +1,9 @@
 (** C18 - switching device or register preserves the program.
     Property theorems only. *)
 From Coq Require Import ZArith List Bool String.
+From Coq Require Import PrimFloat.
 From PV Require Import Model.Base Model.Sched Model.Seq Gen.Switch.
-From PV Require Proofs.SourceTie.
+From PV Require Proofs.SourceTie Proofs.TimingFrame.
 From PV Require Import Proofs.SchedInv Proofs.SeqInv Proofs.SwitchSpec.
 Import ListNotations.
 Open Scope Z_scope.
@@ -47,3 +48,40 @@ Print Assumptions C18_strict_sound_refuted.
 Theorem C18_source_scheduler : SourceTie.scheduler_tied.
 Proof. exact SourceTie.scheduler_source_tie. Qed.
 Print Assumptions C18_source_scheduler.
+
+(** The strict clause at the level of the scheduler (Proofs/TimingFrame.v): the
+    limits of a device only ever refuse.  Whenever a program of scheduler
+    operations succeeds on a device it succeeds, with the same timeline, on the
+    device with every limit erased ... *)
+Theorem C18_limits_only_restrict :
+  forall (e : env) (s s' : sched) (os : list TimingFrame.sop),
+    TimingFrame.srun e os s = (s', Ok tt) ->
+    TimingFrame.srun (TimingFrame.erase_env e) os (TimingFrame.erase s) = (TimingFrame.erase s', Ok tt).
+Proof. exact TimingFrame.limits_only_restrict. Qed.
+Print Assumptions C18_limits_only_restrict.
+
+(** ... hence two devices that agree on everything but the limits give, for every
+    program BOTH accept, identical slot lists and EOM blocks on every channel. *)
+Theorem C18_timing_frame :
+  forall (e1 e2 : env) (s1 s2 s1' s2' : sched) (os : list TimingFrame.sop),
+    en_oracle e1 = en_oracle e2 ->
+    TimingFrame.erase s1 = TimingFrame.erase s2 ->
+    TimingFrame.srun e1 os s1 = (s1', Ok tt) ->
+    TimingFrame.srun e2 os s2 = (s2', Ok tt) ->
+    map ch_slots s1' = map ch_slots s2' /\ map ch_eoms s1' = map ch_eoms s2'.
+Proof. exact TimingFrame.timing_frame. Qed.
+Print Assumptions C18_timing_frame.
+
+(** The hypotheses are satisfiable by devices that differ in their limits. *)
+Theorem C18_timing_frame_example :
+  let s1 := [TimingFrame.tf_chan (TimingFrame.tf_cfg (Some 400) (Some 2%float))] in
+  let s2 := [TimingFrame.tf_chan (TimingFrame.tf_cfg None None)] in
+  snd (TimingFrame.srun TimingFrame.tf_e1 TimingFrame.tf_prog s1) = Ok tt /\
+  snd (TimingFrame.srun TimingFrame.tf_e2 TimingFrame.tf_prog s2) = Ok tt /\
+  map ch_slots (fst (TimingFrame.srun TimingFrame.tf_e1 TimingFrame.tf_prog s1)) =
+  map ch_slots (fst (TimingFrame.srun TimingFrame.tf_e2 TimingFrame.tf_prog s2)) /\
+  map (fun sl => (s_ti sl, s_tf sl))
+      (List.concat (map ch_slots (fst (TimingFrame.srun TimingFrame.tf_e1 TimingFrame.tf_prog s1)))) =
+  [(20, 120); (0, 20); (-1, 0)].
+Proof. exact TimingFrame.timing_frame_example. Qed.
+Print Assumptions C18_timing_frame_example.
